@@ -2,6 +2,7 @@ package main
 
 import (
 	"fmt"
+	"math/rand"
 	"os"
 	"strings"
 	"time"
@@ -149,7 +150,25 @@ func runC03(cs CaseSpec) *CaseResult {
 		// workload search: keep generating split-view DAGs until one makes a fame
 		// election last into a coin round (judged by running it)
 		found := false
-		for try := 0; try < int(cs.I("tries", 300)); try++ {
+		if sp.N == 4 {
+			// layered generate-and-test (findshape.go): a history built so that one
+			// witness alone decides right before the coin round and is then not heard
+			lt := int(cs.I("layered_tries", 8))
+			if cs.Tier == "thorough" {
+				lt = 24
+			}
+			for try := 0; try < lt && !found; try++ {
+				ls := cs.Seed*7919 + int64(cs.Index)*1000 + int64(try)
+				shape, _ := layeredElectionSchedule(rand.New(rand.NewSource(ls)), ls)
+				res.count("dag_layered_search_attempts", 1)
+				if shape != nil {
+					d = genDagFromShape(rng, ls, shape, 4)
+					found = true
+					res.count("dag_layered_search_dags_found", 1)
+				}
+			}
+		}
+		for try := 0; try < int(cs.I("tries", 300)) && !found; try++ {
 			sp2 := sp
 			sp2.Hidden = true
 			sp2.HiddenHalf = (sp.N - 1) / 2
